@@ -131,7 +131,30 @@ fn run_case(o: &mut Outcome, case: &Value) {
         if !at.accepted {
             // is the library's own honest proof accepted? then the raw assembler has drifted
             let lib = present_establish(m, &ag, &template.bytes, "c01/control/lib", seed);
-            if lib.accepted.is_some() {
+            if let Some((cs, _vbs)) = lib.accepted {
+                // The library's own prover is accepted, the reference prover for the same agreed
+                // values is not. Either the forger's layout has drifted, or the library maps the
+                // agreed values to message scalars differently from the reference encoding. Decide
+                // with the customer's own state: the returned closing signature, unblinded with the
+                // blinding factor stored in the Requested stage, must satisfy the reference relation
+                // on (reference id scalar, CLOSE, lock, reference balance scalars).
+                let mut rng = SimRng::new(seed, "forge/est-template");
+                let cb = za::CustomerBalance::try_new(ag.cust).unwrap();
+                let mb = za::MerchantBalance::try_new(ag.merch).unwrap();
+                let (req, _p) = za::customer::Requested::new(&mut rng, &m.ccfg, ag.cid, mb, cb, &ag.ctx());
+                let img = crate::atoms::trace(&req);
+                let bf = refc::sc(img.get("close_state_blinding_factor"));
+                let lock = refc::sc(img.get("state.revocation_pair.lock"));
+                let reference = [ag.id_scalar(), refc::close_tag(), lock, Scalar::from(ag.cust), Scalar::from(ag.merch)];
+                if !unblinds_to_signature_on(m, &cs, &bf, &reference) {
+                    o.violate(
+                        "accepted-proof-signature-not-on-agreed-close-state",
+                        "initialize/closing-signature(reference-encoding)",
+                        "the closing signature returned for the library's own honest proof is not a signature on the agreed (channel id, CLOSE, lock, balances) under the reference encoding of those values: the library encodes an agreed value into the signed message differently".into(),
+                    );
+                    o.nontrivial = true;
+                    return;
+                }
                 crate::harness_error("C01 control: the library's honest proof is accepted but the raw-assembled true statement is refused (forger layout drift)");
             }
             crate::harness_error("C01 control: honest establishment is refused by the merchant; forgers failing would prove nothing (see C04)");
